@@ -28,3 +28,7 @@ subprocess.run(["git", "-C", "/repo", "worktree", "remove", "--force", WT], capt
 # the evidence files were rewritten by runs on the patched tree: restore them from a run on the real tree is the caller's job
 for r in rows:
     print("%-22s %-4s %-10s %s" % r)
+# prune build artefacts of scratch trees (each scratch path gets its own incremental/engeom build in the shared target dir)
+subprocess.run("cd %s/.cache/replay-target/debug 2>/dev/null && find incremental -maxdepth 1 -mindepth 1 -mmin +45 ! -name '*main*' -exec rm -rf {} + ; "
+               "find deps -maxdepth 1 -name '*vreplay_*' ! -name '*vreplay_main*' -mmin +45 -delete ; find . -maxdepth 1 -name 'vreplay_*' ! -name 'vreplay_main*' -mmin +45 -delete ; "
+               "rm -rf %s/.cache/replay-[0-9a-f]*" % (V, V), shell=True, capture_output=True)
